@@ -108,7 +108,7 @@ def _stmt(st, env):
 
 def _as_load(t):
     import copy
-    t2 = copy.deepcopy(t)
+    t2 = A.clone(t)
     for n in ast.walk(t2):
         if hasattr(n, "ctx"):
             n.ctx = ast.Load()
